@@ -4,7 +4,8 @@ A  Props/C25.v over MiniGo (coq/Model/C25.v): the conversion (fmtToBuiltin over 
    printFuncs table, fncallStartingLowerCase, funcLitToLambdaExpr, commandStyleFirst, main
    unwrapping, scope tracking as implemented) and an evaluator with Go / XGo name resolution:
    C25_gopstyle_preserves under no_shadow / no_case_twin / no_builtin_clash (full: incl. the deletion
-   of the unused fmt import), C25_scope_tracking_invisible, *_refuted witnesses,
+   of the unused fmt import), C25_gopstyle_preserves_tracked (`var` statements may shadow imports: the
+   scope tracking with block entry/exit is part of the theorem), C25_scope_tracking_invisible, *_refuted witnesses,
    table obligations over Gen/C25.v (regenerated from x/format and cl/builtin.go on every run).
 B  shape K-diff: real x/format.GopstyleSource output, parsed again and projected to MiniGo, vs the
    extracted model, on deterministic + seeded MiniGo programs.
@@ -23,8 +24,9 @@ CLAIM = {
     "text": "Coq theorem over MiniGo (calls of package functions, user functions, methods and function-literal arguments; "
             "output = trace of external calls): the modelled conversion (fmt.X -> builtin via the generated printFuncs and "
             "XGo builtin tables, lower-casing of selector calls, function literal -> lambda, command style, main unwrapping) "
-            "preserves the trace of every program that has no binder named like an import or like a substituted builtin and "
-            "no lower-case twin of a called method; witnesses refute it otherwise. The model is tied to x/format by "
+            "preserves the trace of every program that has no := variable / parameter / receiver / package variable named like "
+            "an import (var statements may shadow imports: the tracked scopes are part of the theorem), nothing named like a "
+            "substituted builtin and no lower-case twin of a called method; witnesses refute it otherwise. The model is tied to x/format by "
             "regenerating its tables on every run and by comparing its output tree with the real GopstyleSource output on "
             "generated programs; behaviour of generated and handwritten programs is checked end to end (go build + run).",
     "note": "Kernel theorem + explored remainder: the printer/parser round trip, XGo's compiler and everything outside "
